@@ -186,19 +186,55 @@ pub fn verify_poison() -> Option<usize> {
     None
 }
 
-/// Address the next allocation of the given layout will get, given the arena fill level
-/// `before` (= `bytes_used()` sampled just before the allocating call). Only meaningful while
-/// quarantining, where allocation is a bump of `NEXT`.
-pub fn arena_addr_at(before: usize, size: usize, align: usize) -> Option<usize> {
-    if !ACTIVE.load(Relaxed) {
-        return None;
+const CAP_SLOTS: usize = 32;
+static CAP_THREAD: [AtomicUsize; CAP_SLOTS] = [const { AtomicUsize::new(0) }; CAP_SLOTS];
+static CAP_SIZE: [AtomicUsize; CAP_SLOTS] = [const { AtomicUsize::new(0) }; CAP_SLOTS];
+static CAP_ADDR: [AtomicUsize; CAP_SLOTS] = [const { AtomicUsize::new(0) }; CAP_SLOTS];
+static CAP_ANY: AtomicUsize = AtomicUsize::new(0);
+
+/// Start capturing the address of the next allocation of exactly `size` bytes made by the
+/// calling thread (used to learn the block address of an object whose constructor hands out no
+/// pointer, e.g. `new_many::<0>`). Captures are per OS thread: the constructor may yield to other
+/// simulated threads before it returns.
+pub fn capture_begin(size: usize) {
+    let me = unsafe { libc::pthread_self() } as usize;
+    for i in 0..CAP_SLOTS {
+        if CAP_THREAD[i].load(SeqCst) == 0 {
+            CAP_ADDR[i].store(0, SeqCst);
+            CAP_SIZE[i].store(size, SeqCst);
+            CAP_THREAD[i].store(me, SeqCst);
+            CAP_ANY.fetch_add(1, SeqCst);
+            return;
+        }
     }
-    let align = align.max(1 << GRANULE_SHIFT);
-    let start = (BASE.load(Relaxed) + before + align - 1) & !(align - 1);
-    if NEXT.load(Relaxed) >= start + size {
-        Some(start)
-    } else {
-        None
+}
+
+pub fn capture_end() -> Option<usize> {
+    let me = unsafe { libc::pthread_self() } as usize;
+    for i in 0..CAP_SLOTS {
+        if CAP_THREAD[i].load(SeqCst) == me {
+            CAP_THREAD[i].store(0, SeqCst);
+            CAP_ANY.fetch_sub(1, SeqCst);
+            return match CAP_ADDR[i].load(SeqCst) {
+                0 => None,
+                a => Some(a),
+            };
+        }
+    }
+    None
+}
+
+#[inline]
+fn capture(ptr: *mut u8, size: usize) {
+    if CAP_ANY.load(Relaxed) == 0 {
+        return;
+    }
+    let me = unsafe { libc::pthread_self() } as usize;
+    for i in 0..CAP_SLOTS {
+        if CAP_THREAD[i].load(Relaxed) == me && CAP_SIZE[i].load(Relaxed) == size && CAP_ADDR[i].load(Relaxed) == 0 {
+            CAP_ADDR[i].store(ptr as usize, SeqCst);
+            return;
+        }
     }
 }
 
@@ -209,7 +245,9 @@ pub fn bytes_used() -> usize {
 unsafe impl GlobalAlloc for Quarantine {
     unsafe fn alloc(&self, layout: Layout) -> *mut u8 {
         if !ACTIVE.load(Relaxed) {
-            return System.alloc(layout);
+            let p = System.alloc(layout);
+            capture(p, layout.size());
+            return p;
         }
         ALLOCS.fetch_add(1, Relaxed);
         // round everything to granules so that poison verification can use whole words
@@ -226,6 +264,7 @@ unsafe impl GlobalAlloc for Quarantine {
                 .compare_exchange_weak(cur, end, Relaxed, Relaxed)
                 .is_ok()
             {
+                capture(start as *mut u8, layout.size());
                 return start as *mut u8;
             }
         }
